@@ -2,7 +2,7 @@
 From Coq Require Import List Arith Bool ZArith QArith Qcanon Lia.
 From QV.Core Require Import OF QcOF.
 From QV.Model Require Import C13_Cache C13_Loss C13_LossNum C13_Heap.
-From QV.Proofs Require Import C13_Cache C13_Loss C13_Heap.
+From QV.Proofs Require Import C13_Cache C13_Loss C13_Heap C13_HeapValue.
 Import ListNotations.
 
 (* ================= 1. CompositeSystem: lazily built, individually deletable tables ================= *)
@@ -288,6 +288,16 @@ Theorem C13_mprocess_proj_eq_operands_unchanged : forall (F : OF) (h : heap F) d
   proj_eq_with_var_fixed F h d2 on_para var = Some (h', res) -> live F h x -> rd F h' x i = rd F h x i.
 Proof. exact proj_eq_fixed_reads_unchanged. Qed.
 Print Assumptions C13_mprocess_proj_eq_operands_unchanged.
+
+(* the repair changes nothing else: for all sizes, both modes and every input the repaired function returns exactly the
+   values the code before the fix returned (same length, same entries) *)
+Theorem C13_mprocess_proj_eq_same_values : forall (F : OF) (h : heap F) d2 on_para var h0 r0 h' r',
+  (1 <= d2)%nat -> live F h var ->
+  proj_eq_with_var F h d2 on_para var = Some (h0, r0) ->
+  proj_eq_with_var_fixed F h d2 on_para var = Some (h', r') ->
+  a_len r' = a_len r0 /\ forall i, (i < a_len r0)%nat -> rd F h' r' i = rd F h0 r0 i.
+Proof. exact proj_eq_fixed_same_values. Qed.
+Print Assumptions C13_mprocess_proj_eq_same_values.
 
 (* convert_var_to_hss (unchanged by the fix) writes nothing that existed; its results are views of a new buffer
    when on_para_eq_constraint = True and views of the ARGUMENT otherwise (the harness compares buffer and offset
